@@ -969,7 +969,7 @@ func (env *Environment) runTasksAsHooks(hooksToTrigger task.Tasks) (errorMap map
 func (env *Environment) TryTransition(t Transition) (err error) {
 	if !env.transitionMutex.TryLock() {
 		log.WithField("partition", env.id.String()).
-			Warnf("environment transition '%s' attempt delayed: transition '%s' in progress. waiting for completion or failure", t.eventName(), env.currentTransition)
+			Warnf("environment transition '%s' attempt delayed: transition '%s' in progress. waiting for completion or failure", t.eventName(), env.CurrentTransition())
 		env.transitionMutex.Lock()
 		log.WithField("level", infologger.IL_Support).
 			WithField("partition", env.id.String()).
